@@ -457,7 +457,7 @@ def finish_conc(prop, tier, seed, spec, results, wall):
         cfgc = dict([c for c in unit["configs"] if c["name"] == cfgname][0])
         cfgc["_ops"] = {int(k): tuple(x) for k, x in rr["ops"].items()}
         segs = conc_replay.segments_from_model(v["model"], rr["thread_names"])
-        json.dump({"property": prop, "unit": rr["unit"], "config": cfgname, "label": v["label"], "kind": "schedule", "thread_fns": cfgc["threads"],
+        json.dump({"property": prop, "unit": rr["unit"], "config": cfgname, "label": v["label"], "kind": "schedule", "thread_fns": cfgc["threads"], "ops": {str(k): list(x) for k, x in cfgc["_ops"].items()},
                    "segments": segs, "model": v["model"]}, open(tp, "w"), indent=1, default=str)
         replayer = getattr(conc_replay, unit.get("replayer", "replay_queue"))
         try:
